@@ -969,6 +969,10 @@ func genDCase(t *rapid.T) DCase {
 		}
 	}
 	data, _ := json.Marshal(doc)
+	// what files carry in front of a document
+	if rapid.IntRange(0, 11).Draw(t, "lead") == 7 {
+		data = append([]byte(rapid.SampledFrom([]string{"\xef\xbb\xbf", "\xef\xbb\xbf ", " \n", "\xff\xfe", "\xef\xbb", "\x00"}).Draw(t, "leadbytes")), data...)
+	}
 	if rapid.IntRange(0, 5).Draw(t, "bytemut") == 0 && len(data) > 0 {
 		i := rapid.IntRange(0, len(data)-1).Draw(t, "pos")
 		data[i] = rapid.SampledFrom([]byte{'[', ']', '{', '}', ',', '"', '0', 'e', '-', ' '}).Draw(t, "b")
@@ -981,6 +985,18 @@ func propD(c DCase) error {
 }
 
 func decodeAll(data []byte) error {
+	handed := append([]byte(nil), data...)
+	defer func() { copy(data, handed) }()
+	if err := decodeAll0(data); err != nil {
+		return err
+	}
+	if !bytes.Equal(data, handed) {
+		return fmt.Errorf("a decoder changed the bytes it was handed: now %q, were %q", clip(string(data)), clip(string(handed)))
+	}
+	return nil
+}
+
+func decodeAll0(data []byte) error {
 	return run.Bounded(func() error {
 		var g geom.T
 		if err := geojson.Unmarshal(data, &g); err == nil && g != nil {
